@@ -309,7 +309,7 @@ func newWorld() *world {
 	handler = gatewayfilters.WithUpstreamInfo(handler, w.ctrl, scheme.Codecs)
 	handler = gatewayfilters.WithExtraRequestInfo(handler, &gatewayrequest.ExtraRequestInfoFactory{LongRunningFunc: longRunning}, scheme.Codecs)
 	handler = gatewayfilters.WithTerminationMetrics(handler)
-	handler = gatewayfilters.WithRequestInfo(handler, resolver)
+	handler = gatewayfilters.WithRequestInfo(handler, resolver, scheme.Codecs)
 	w.gw = httptest.NewServer(handler)
 	w.client = &http.Client{Transport: &http.Transport{DisableKeepAlives: true}}
 	return w
